@@ -6,7 +6,7 @@ ID = 'C18'
 UNITS = ['multipitch_metrics', 'multipitch_resample']
 TRANSLATORS = []
 NOT_COVERED = ('frequencies_to_midi (log2) is a parameter of the model (the unit feeds it the implementation\'s own Hz->MIDI table); unsorted time '
-               'bases passed directly to resample_multipitch; termination of the matcher within its fuel is observed, not proved')
+               'bases passed directly to resample_multipitch; the matcher model is total (bipartite_match_total)')
 ASSUMPTIONS = ['scipy interp1d(kind="nearest") = left searchsorted on midpoints, as observed and modelled; np.allclose constants as exact doubles']
 
 
@@ -72,6 +72,6 @@ MANIFEST = {
             '(known findings). Model tied to the code by two correspondence units (14 scores, TP arrays, resampled frames).',
     'design_ref': 'DESIGN.md section 6, C18',
     'level_note': 'Trusted: Coq kernel + vm_compute; correspondence harness; the Hz->MIDI conversion is an uninterpreted parameter; scipy/NumPy '
-                  'primitives as modelled. Counts are stated "whenever the matcher model returns" (fuel).',
+                  'primitives as modelled. Counts are stated "whenever the matcher model returns"; that it always returns is bipartite_match_total (C05).',
     'technique': 'Coq proof on a Gallina model of multipitch.metrics / resample_multipitch (integer accounting, max-matching size lemmas); model/code correspondence by vm_compute',
 }
